@@ -13,8 +13,10 @@ PROP = {'lean_props': ['Comrak.Props.C17'],
                        'crFlush_clears',
                        'renderCm_final_newline',
                        'canonical_spellings',
-                       'cm_end_list_after_empty_item_counterexample'],
- 'strength': 'partial: proved are the parser-independent halves of idempotence (pending-newline bookkeeping idempotent and monotone, flush leaves nothing pending, final newline, one spelling per construct) on the writer model that is byte-equal to the real writer; the fixed-point relation itself is false on the pinned tree (Lean witness + listed finding classes) and is decided per input by the search oracle',
+                       'cm_end_list_after_empty_item_counterexample',
+                       'cm_fixed_point_canon_partial',
+                       'cm_idempotent_canon_partial'],
+ 'strength': 'partial: proved are the parser-independent halves of idempotence (pending-newline bookkeeping idempotent and monotone, flush leaves nothing pending, final newline, one spelling per construct) on the writer model that is byte-equal to the real writer; the fixed-point relation itself is false on the pinned tree (Lean witness + listed finding classes) and is decided per input by the search oracle; on a stated sub-class of the C03 canonical documents (Doc.cmOk: text with the always-escaped marks, emphasis, strong, strikethrough, code spans, inline links and images, angle autolinks, breaks, ATX headings, thematic breaks, one-block quotes, nested bullet/ordered/task lists without blank lines inside items) the fixed point IS a theorem: renderCm defaultOpts d.toTree = d.write, hence idempotence modulo the K correspondence (cm_fixed_point_canon_partial, cm_idempotent_canon_partial)',
  'trusted_base': CM_TB,
  'assumptions': ['claimed class of the two round-trip oracles (S): documents built from the standard constructs (paragraphs, ATX/setext headings, thematic breaks, '
                  'fenced/indented code, block quotes, bullet/ordered lists tight/loose, task items, HTML blocks, tables, one referenced footnote; emphasis/strong, '
@@ -32,11 +34,14 @@ PROP = {'lean_props': ['Comrak.Props.C17'],
  'timeout_quick': 900,
  'timeout_thorough': 3000}
 
-TEXT = {'text': 'Proof + search. Same model of cm.rs as C07 (renderCm, byte-equal to the real format_commonmark on parsed documents and direct trees). Lean proves '
+TEXT = {'text_added': 'On the sub-class of canonical documents of cm_fixed_point_canon_partial the driver generates documents (`canoncm`) and the harness checks on the real code that the parser returns the model tree for the written text and that format_commonmark returns the written text byte for byte.',
+ 'text': 'Proof + search. Same model of cm.rs as C07 (renderCm, byte-equal to the real format_commonmark on parsed documents and direct trees). Lean proves '
          'the parts of the fixed-point property that do not involve the parser: cr/blankline are idempotent, blankline absorbs cr and need_cr never decreases '
          'between flushes; the flush at the head of output leaves nothing pending and is idempotent; a tight list item gets at most one newline; the document '
          'ends with exactly one final line feed; fences are at least three characters of one kind and ordered markers are padded to ol_width. That the first '
-         'pass is not always a fixed point is a Lean counterexample (end-of-list comment under an empty last item). The relation '
+         'pass is not always a fixed point is a Lean counterexample (end-of-list comment under an empty last item). On the sub-class Doc.cmOk of the canonical '
+         'documents (spelling fixed to the writer\'s choices; constructs excluded are listed in the theorem\'s docstring) Lean proves that the writer model with '
+         'default options reproduces the document\'s own text, so that idempotence on that class follows from the K correspondence alone. The relation '
          'cm(parse(cm(parse x))) == cm(parse x) is evaluated byte for byte on the real code over the same class as C07; failures are shrunk and classified by '
          'the first structural difference between parse(x) and parse(cm(parse x)) (or, when the trees agree, by the first differing output line); classes found '
          'on the pinned tree are listed findings, any other class is a violation.',
